@@ -17,8 +17,8 @@ import (
 func init() {
 	Register(&Check{
 		Spec: core.Spec{ID: "C24", Level: "exploration",
-			Rule:        "case = generated scenario behind an instrumented DataStore (every OpenFile and every Read with file, offset, length logged) x generated queries run one at a time; expected pruning is recomputed from the real filter bits (file-level filters as the MetaStore yields them, block filters through ReadDataBlockBloomFilters) and the query's bloom tree alone; non-trivial = query for which at least one file or block is ruled out; distinct = distinct (scenario, query JSON)",
-			Assumptions: []string{"the regex field guard is an optimisation the property does not demand: only the bloom tree defines 'ruled out'", "trees containing unknown node kinds carry no file/block-level verdict", "'no bloom or regex conditions' = both expressions nil/absent"},
+			Rule:        "case = generated scenario behind an instrumented DataStore (every OpenFile and every Read with file, offset, length logged) x generated queries run one at a time; expected pruning is recomputed from the real filter bits (file-level filters as the MetaStore yields them, block filters through ReadDataBlockBloomFilters) the query's bloom tree and, at block level, the field-presence demand of its regex tree (FieldRegex(f, ..) can only match rows that have field f; weakest reading: nil/empty/unknown nodes demand nothing); non-trivial = query for which at least one file or block is ruled out; distinct = distinct (scenario, query JSON)",
+			Assumptions: []string{"file level: only the bloom tree defines 'ruled out' (the property's wording); block level: bloom tree and the regex trees' field-presence demand", "trees containing unknown node kinds carry no file/block-level verdict", "'no bloom or regex conditions' = both expressions nil/absent"},
 			Floors:      map[string]int64{"queries": 200, "files_ruled_out": 20, "blocks_ruled_out": 50, "reads_checked": 500}},
 		Cases: func(t string) int { return nQueries(t, 64, 3000) },
 		Run:   runC24,
@@ -142,6 +142,12 @@ func runC24(rc *RunCtx, i int) {
 					out = "prefilter (referenced partition/minmax metadata missing)"
 				} else if verdictable && bloom != nil && !bloomOnFilters(fi.bf[bi], bloom) {
 					out = "block filters"
+				} else if !regexGuardOnFilters(fi.bf[bi], regexOf(q)) {
+					// a FieldRegex(f, ..) condition can only match a row that has field f: a block
+					// whose field filter lacks f holds no such row (the exported
+					// RegexFieldGuardBloomQuery is this implication)
+					out = "block field filter (a field its regex conditions need is absent)"
+					rc.Res.Count("blocks_ruled_out_by_regex_field_guard", 1)
 				} else if fileOut {
 					out = "file-level filters"
 				}
@@ -200,6 +206,42 @@ func runC24(rc *RunCtx, i int) {
 			}()})
 		}
 	}
+}
+
+// regexGuardOnFilters evaluates what a regex tree demands of a block's field filter, derived from
+// the documented semantics alone: FieldRegex(f, p) matches only leaves at or beneath f, and f is
+// then a field entry of the row. Deliberately weak wherever the tree gives no demand (nil
+// expression or condition, empty field, empty OR, unknown node kinds all count as satisfied), so a
+// "ruled out" verdict never rests on more than that implication.
+func regexGuardOnFilters(f *bs.BloomFilters, e *bs.RegexExpression) bool {
+	if e == nil || f == nil {
+		return true
+	}
+	switch e.ExpressionType {
+	case bs.RegexExpressionCondition:
+		if e.Condition == nil || e.Condition.Field == "" {
+			return true
+		}
+		return f.FieldBloomFilter == nil || f.FieldBloomFilter.TestString(e.Condition.Field)
+	case bs.RegexExpressionAnd:
+		for k := range e.Children {
+			if !regexGuardOnFilters(f, &e.Children[k]) {
+				return false
+			}
+		}
+		return true
+	case bs.RegexExpressionOr:
+		if len(e.Children) == 0 {
+			return true
+		}
+		for k := range e.Children {
+			if regexGuardOnFilters(f, &e.Children[k]) {
+				return true
+			}
+		}
+		return false
+	}
+	return true
 }
 
 func insideUnion(rd extent, exts []extent) bool {
